@@ -830,6 +830,12 @@ class Interp:
                 if isinstance(st, ast.For):
                     ev = self.ops.loop_elem(elem, lid, info)
                     self.assign(st.target, ev, body_env, st)
+                    if _ == 0:
+                        # a value the loop variable(s) held before the loop (left by an earlier loop over the same name) is overwritten at
+                        # the start of every iteration: joining it with the element now keeps it from costing a second pass later
+                        for nm_ in {x.id for x in ast.walk(st.target) if isinstance(x, ast.Name)}:
+                            if nm_ in head.vars and nm_ in body_env.vars:
+                                head.vars[nm_] = self.join_vals(head.vars[nm_], body_env.vars[nm_], set())
                 else:
                     self.eval(st.test, body_env)
                     self.ops.assume(st.test, True, body_env)
